@@ -15,7 +15,7 @@ from ..prop import Prop
 from ..ref import frames
 from .. import ops
 
-ALPHABET = ["connect", "op_ok", "op_raise", "drop", "disconnect", "refused", "ctx_ok", "ctx_exc", "op_big", "connect_cancelled", "disconnect_during_op", "disconnect_twice_at_once"]
+ALPHABET = ["connect", "op_ok", "op_raise", "drop", "disconnect", "refused", "ctx_ok", "ctx_exc", "op_big", "connect_cancelled", "disconnect_during_op", "disconnect_twice_at_once", "op_garbage"]
 
 
 class Boom(Exception):
@@ -65,7 +65,7 @@ def legal(history):
             if not connected:
                 return False
             connected = False
-        elif a in ("op_ok", "op_raise", "drop", "op_big"):
+        elif a in ("op_ok", "op_raise", "drop", "op_big", "op_garbage"):
             if not connected:
                 return False
         elif a in ("disconnect", "disconnect_twice_at_once"):
@@ -95,7 +95,7 @@ class C18(Prop):
             "and the client keeps using it, disconnect, refused connect (the device gone, or only this protocol's port closed), async-with with normal body, async-with whose body raises, operation answered with 6 KB, connect cancelled after 0..4 loop cycles followed by a reconnect, disconnect from another task while an operation waits for its reply}; all legal "
             "histories of length <= 4 for both API classes (exhaustive, both tiers) plus random legal histories of length 5..10; distinct = "
             "(api type, history); a second, independent instance stays connected to another device throughout and must be unaffected; non-trivial = histories containing a failure action (op_raise, drop, refused, ctx_exc) or a reconnect")
-    level_text = ("All legal action histories up to length 4 over a 12-letter alphabet are enumerated for both API classes on every run, longer "
+    level_text = ("All legal action histories up to length 4 over a 13-letter alphabet are enumerated for both API classes on every run, longer "
                   "ones sampled; after each action the flag is compared with the model and after each disconnect the device must observe end-of-stream.")
     level_note = "connect while connected and operations while disconnected are outside the statement; whether disconnect() raises after a device-side drop is not judged, only the flag and the socket"
     assumptions = ["an operation 'raises' by receiving an empty login reply", "refused connect = the device's listener is closed"]
@@ -153,6 +153,8 @@ class C18(Prop):
                 return td.DROP
             if mode["login"] == "big" and frames.classify(frame) not in ("login", "login2"):
                 return healthy(conn, idx, frame) + bytes(6000)     # a chatty device: far more than the client asks for
+            if mode["login"] == "garbage" and frames.classify(frame) not in ("login", "login2"):
+                return bytes(40)     # the login is answered properly, the state request with 40 zero bytes
             if mode["login"] == "biglogin" and frames.classify(frame) in ("login", "login2"):
                 return healthy(conn, idx, frame) + bytes(1500)     # ... already at the login: the first read comes back full
             return healthy(conn, idx, frame)
@@ -409,6 +411,11 @@ class C18(Prop):
                     await asyncio.sleep(0.005)
                     cur["unread"] = True
                 trace.append(f"op_big {out}")
+            elif a == "op_garbage":
+                mode["login"] = "garbage"
+                out = await do_op()
+                mode["login"] = "ok"
+                trace.append(f"op_garbage {out}")
             elif a == "op_raise":
                 mode["login"] = "eof"
                 out = await do_op()
@@ -597,7 +604,7 @@ class C18(Prop):
                 c.closed = True
                 c.writer.close()
         dev.conns.clear()
-        failure = any(a in ("op_raise", "drop", "refused", "ctx_exc", "connect_cancelled", "disconnect_during_op") for a in history)
+        failure = any(a in ("op_raise", "op_garbage", "drop", "refused", "ctx_exc", "connect_cancelled", "disconnect_during_op") for a in history)
         reconnect = sum(1 for a in history if a in ("connect", "ctx_ok", "ctx_exc")) >= 2
         if failure or reconnect:
             acc.sig(env.sig(t, history))
